@@ -29,6 +29,13 @@ func NewServerSocket(e tcpip.Endpoint, q *waiter.Queue) *ServerSocket {
 	}
 	s.waitEntry, s.notifyC = waiter.NewChannelEntry(nil)
 	q.EventRegister(&s.waitEntry, waiter.EventIn)
+	//注册之前已经到达的数据不会再有通知,这里补发一次
+	if e.Readiness(waiter.EventIn)&waiter.EventIn != 0 {
+		select {
+		case s.notifyC <- struct{}{}:
+		default:
+		}
+	}
 	s.addr, _ = e.GetRemoteAddress()
 	s.queue = q
 	return s
